@@ -801,3 +801,46 @@ MODULES["VecCmplx"]["spec"]["fields"].update({("ctri", "sub"): ("(tsub {0})", "c
 MODULES["VecCmplx"]["spec"]["methods"][("cvec", "conj", 0)] = dict(g="(vconj {0} : list (T CA))", ret="cvec", atom=True)
 MODULES["VecCmplx"]["spec"]["structs"] = {"Tridiagonal": (["sub", "main", "sup", "n"], "(@mkT CA {0} {1} {2} {3})", "ctri")}
 MODULES["VecCmplx"]["imports"] = "From OV Require Import Base.Panic Base.Arith Model.Complex Model.Vector Model.Matrix Model.Tridiag Model.Newton gen.SrcPrelude."
+
+# >>> STATE_ORDERS (generated: translate_src.py --pin-state-orders)
+STATE_ORDERS = {
+    'Banded': {
+        'band_solve': {'loop0': [0, 1], 'loop2': [0, 1]},
+        'decompose': {'if1': [0, 1], 'if3': [1, 0], 'loop0': [0, 1], 'loop3': [2, 4, 1, 3, 0], 'loop4': [0, 1], 'loop6': [2, 1, 0]},
+    },
+    'Iter': {
+        'solve_bicg': {'if3': [0, 1], 'if7': [0, 1], 'loop0': [5, 6, 7, 9, 4, 1, 2, 3, 8, 0]},
+        'solve_bicgstab': {'loop0': [5, 4, 0, 1, 6, 2, 9, 3, 7, 8]},
+        'solve_cg': {'loop0': [2, 4, 1, 0, 5, 3]},
+        'solve_qmr': {'if12': [0, 1], 'if8': [0, 1], 'loop0': [14, 16, 6, 8, 4, 10, 11, 9, 15, 0, 1, 5, 7, 2, 3, 12, 13]},
+    },
+    'Newton': {
+        'jacobian_f64': {'loop0': [0, 1]},
+    },
+    'NewtonC': {
+        'jacobian_cmplx': {'loop0': [0, 1]},
+    },
+    'Poly': {
+        'polydiv': {'loop0': [0, 1, 2]},
+        'ptrim': {'loop0': [0, 1]},
+    },
+    'Roots': {
+        'laguer': {'loop0': [1, 0], 'loop1': [2, 3, 1, 0]},
+        'poly_solve': {'if4': [1, 0], 'if6': [2, 1, 0], 'loop0': [1, 0, 2], 'loop2': [0, 1], 'loop3': [2, 1, 0]},
+    },
+    'Solve': {
+        'gauss_with_pivot': {'loop0': [0, 1], 'loop1': [0, 1]},
+        'lu_decomp_in_place': {'if1': [0, 1], 'if2': [1, 2, 0], 'loop0': [1, 2, 0], 'loop1': [0, 1]},
+        'max_abs_in_column': {'if0': [1, 0], 'loop0': [1, 0]},
+    },
+    'Sparse': {
+        'sp_col_index': {'loop0': [1, 0]},
+        'sp_col_start_from_index': {'loop1': [0, 1]},
+        'sp_from_triplets': {'loop0': [0, 1, 2, 3]},
+        'sp_transpose': {'loop3': [0, 1], 'loop4': [0, 1]},
+    },
+    'Tridiag': {
+        'tsolve': {'loop0': [2, 1, 0]},
+    },
+}
+# <<< STATE_ORDERS
